@@ -39,6 +39,9 @@ type Event struct {
 	Bind  []*Term
 	Instr ssa.Instruction
 	Mem   map[int]*Term // memory at the go statement
+	// mapop: number of clock readings made before the operation started (readings numbered above it were made while
+	// the operation's closure ran, i.e. under the key's lock, or afterwards)
+	ClockBefore int
 }
 
 // State is the per-path interpreter state.
@@ -1215,7 +1218,7 @@ func (it *Interp) mapOp(fr *frame, c ssa.CallInstruction, meth string, args []*T
 	n := st.nOp
 	old := Leaf("mapold", fmt.Sprint(n))
 	loadedAtom := Leaf("loaded", fmt.Sprint(n))
-	ev := Event{Kind: "mapop", N: n, InOp: st.curOp, InRange: st.curRng, Name: meth, Effect: "none", Loaded: -1, Pos: pos}
+	ev := Event{Kind: "mapop", N: n, InOp: st.curOp, InRange: st.curRng, Name: meth, Effect: "none", Loaded: -1, Pos: pos, ClockBefore: st.nClock}
 	if len(args) > 0 {
 		ev.Key = args[0]
 	}
